@@ -139,6 +139,11 @@ def compare(exp, obs):
             bad.append("configuration is invalid (%s) but the graph was built without error" % exp["why"])
         if obs["starts"] != 0:
             bad.append("configuration is invalid (%s) but %d components were started" % (exp["why"], obs["starts"]))
+        if obs.get("svc_tried"):
+            if obs["svc_new_err"] is None:
+                bad.append("configuration is invalid (%s) but service.New built a service" % exp["why"])
+            if obs["svc_starts"] != 0:
+                bad.append("configuration is invalid (%s) but service.New started %d components" % (exp["why"], obs["svc_starts"]))
         return bad
     if obs["build_err"] is not None:
         return ["valid configuration rejected at build time: %s" % obs["build_err"]]
